@@ -264,9 +264,10 @@ def check_C09(pid, tier, seed, verdict):
 
 # ------------------------------------------------------------------------------------------- C14
 def check_C14(pid, tier, seed, verdict):
-    mcs = [mc_must_hold(pid, verdict, "Heartbeat.tla", "MC_Heartbeat_deadline.cfg", workers=4),
+    big = tier == "thorough"
+    mcs = [mc_must_hold(pid, verdict, "Heartbeat.tla", "MC_Heartbeat_deadline_big.cfg" if big else "MC_Heartbeat_deadline.cfg", workers=4),
            mc_must_fail(pid, "Heartbeat.tla", "MC_Heartbeat_pinned.cfg", workers=4)]
-    g = V.run_gen(pid, "Heartbeat.tla", "Gen_Heartbeat.cfg")
+    g = V.run_gen(pid, "Heartbeat.tla", "Gen_Heartbeat_big.cfg" if big else "Gen_Heartbeat.cfg")
     mcs.append(g)
     sp = os.path.join(V.workdir(pid), "gen.scn")
     V.write_scenarios(sp, g["scenarios"])
@@ -278,7 +279,8 @@ def check_C14(pid, tier, seed, verdict):
           f"devs={len(res['devs'])}")
     cov = _cov(mcs, cnt["scn"], cnt["nontrivial"],
                "scenario = one (interval, timeout, round-trip delay, silence point) tuple of the full grid I,T in 1..4 s "
-               "(incl. T<I, T=I), delay 0..T-0.5 s, peer silent never / from the start / after 1..3 answers, x {idle, stream "
+               "(thorough: 1..6 s; incl. T<I, T=I), delay 0..T-0.5 s, peer silent never / from the start / after 1..3 (thorough: "
+               "1..5) answers, x {idle, stream "
                "traffic, traffic + peer stops reading}; the real client Session runs in virtual time against a scripted peer, "
                "state sampled every 100 ms; quick tier replays one quarter of the grid chosen by the seed; non-trivial = "
                "timelines whose end-of-observation verdict was judged", V.sample_descrs(run["descr"]), True,
